@@ -280,11 +280,34 @@ func runC13(c *Ctx) {
 						}
 					}
 				}
-				if !inArm {
+				if inArm {
+					n, k := f.KnownNil(r.Block(), lerr)
+					c.Check(k && !n, "R2.passthrough", "server.AddHardCert arm|gives up only after both encodings failed", w.Pos(r.Pos()), "must-fact: the bare-key parse failed too", "the arm ends the connection because the key+comment decode failed without having tried the bare-key encoding (some keys in the old format are misread as the new one)")
 					continue
 				}
-				n, k := f.KnownNil(r.Block(), lerr)
-				c.Check(k && !n, "R2.passthrough", "server.AddHardCert arm|gives up only after both encodings failed", w.Pos(r.Pos()), "must-fact: the bare-key parse failed too", "the arm ends the connection because the key+comment decode failed without having tried the bare-key encoding (some keys in the old format are misread as the new one)")
+				// the error returned is, on some path, the failure of the new-format decode (or of its inner key parse): on that
+				// path the bare-key parse must have failed too
+				if len(r.Results) == 0 {
+					continue
+				}
+				for _, lf := range w.Leaves(r.Results[len(r.Results)-1], r) {
+					v := throughCell(strip(lf.Val))
+					fromNew := v == ssa.Value(newfmt)
+					if ex, ok := v.(*ssa.Extract); ok {
+						if pc, ok := ex.Tuple.(*ssa.Call); ok && calleeName(pc) == "golang.org/x/crypto/ssh.ParsePublicKey" && strings.HasSuffix(w.Expr(pc.Call.Args[0]), ".KeyBlob") {
+							fromNew = true
+						}
+					}
+					if !fromNew {
+						continue
+					}
+					facts := copyFacts(f.At(r.Block()))
+					for l := range lf.Facts {
+						facts[l] = true
+					}
+					n, k := f.knownNilIn(facts, lerr)
+					c.Check(k && !n, "R2.passthrough", "server.AddHardCert arm|gives up only after both encodings failed", w.Pos(r.Pos()), "must-fact: the bare-key parse failed too", "the arm ends the connection because the key+comment decode failed without having tried the bare-key encoding (some keys in the old format are misread as the new one)")
+				}
 			}
 		}
 	}
@@ -360,6 +383,26 @@ func runC13(c *Ctx) {
 			nExec++
 			ok := f.Any(call.Block(), func(l Lit) bool { return !l.Pol && w.Expr(l.V) == "p0."+remoteField })
 			c.Check(ok, "R3.remote", "server."+name+"|tool run only when not remote", w.Pos(call.Pos()), "must-fact remote == false", "the PIV tool can be run on a remote-mode server")
+		}
+		// a failure of the tool fails the operation: wherever the error of running it is non-nil, control reaches only
+		// returns of a non-nil error (a partial output is not an answer)
+		for _, call := range w.callsInDeep(fn) {
+			cv, isCall := call.(*ssa.Call)
+			if !isCall {
+				continue
+			}
+			n := calleeName(cv)
+			if n != "(*os/exec.Cmd).Output" && n != "(*os/exec.Cmd).CombinedOutput" && n != "(*os/exec.Cmd).Run" {
+				continue
+			}
+			var ev ssa.Value = cv
+			if cv.Call.Signature().Results().Len() == 2 {
+				ev = extractOf(cv, 1)
+			}
+			g := cv.Parent()
+			ends := ev != nil && w.ErrEdgeEnds(g, ev) && (g == fn || w.failurePropagates(fn, g))
+			c.Check(ends, "R4.slots", "server."+name+"|a failed tool run fails the operation", w.Pos(cv.Pos()), "the error edge of the tool's run reaches only returns of a non-nil error",
+				"the slot operation can go on (and report success) although running the PIV tool failed: a truncated or partial output is taken for the answer")
 		}
 		for _, r := range liveReturns(fn) {
 			if f.Any(r.Block(), func(l Lit) bool { return l.Pol && w.Expr(l.V) == "p0."+remoteField }) {
